@@ -274,6 +274,10 @@ def check_world(refs, pos, acc, key=None, setting=0):
     # the contig extends beyond the last label (and the first label is at 0): trimming must cut both ends on both strands
     q = (7, pos[-1] + 1.0 + 2500.0, list(pos))
     qm = (7, pos[-1] + 1.0 + 700.0, sorted(pos[-1] - p for p in pos))
+    if (len(pos) + int(pos[1] // 100)) % 3 == 0:
+        # every third molecule ends exactly ON its last label (ContigLength = coordinate of the last label), and so does its mirror
+        q = (7, pos[-1], list(pos))
+        qm = (7, pos[-1], sorted(pos[-1] - p for p in pos))
     n = len(pos)
     extra = list((SETTINGS + SETTINGS_4200)[setting])
     o1 = driver.run_world(dict(refs=refs, queries=[q]), 'separate', extra=extra, extensions=[sink_seeds()], in_child=_nseg)
